@@ -89,6 +89,7 @@ pub struct Summary {
     drift: Vec<Value>,
     extra: Map<String, Value>,
     sample_every: u64,
+    per_class: BTreeMap<String, u64>,
 }
 
 const KEEP: usize = 25;
@@ -103,6 +104,7 @@ impl Summary {
             drift: vec![],
             extra: Map::new(),
             sample_every: 997,
+            per_class: BTreeMap::new(),
         }
     }
 
@@ -125,7 +127,11 @@ impl Summary {
 
     pub fn violation(&mut self, prop: &str, v: Value) {
         self.props.entry(prop.to_string()).or_default().violations += 1;
-        if self.violations.len() < KEEP * 8 {
+        // keep at most 12 per (property, class) so that a frequent class cannot hide a rare one
+        let class_key = format!("{prop}/{}", v.get("class").map(|c| c.to_string()).unwrap_or_default());
+        let seen = self.per_class.entry(class_key).or_insert(0);
+        *seen += 1;
+        if *seen <= 12 && self.violations.len() < KEEP * 40 {
             let mut v = v;
             if let Value::Object(m) = &mut v {
                 m.insert("property".into(), json!(prop));
